@@ -1,7 +1,7 @@
 """C04 Opacity interpolation in temperature and pressure is sound everywhere."""
 import ast
 
-from sa.helpers import (mkflow, spec, code, one, calls, bind_call, param_env,
+from sa.helpers import (the_return, mkflow, spec, code, one, calls, bind_call, param_env,
                         loop_matches, fmt, atom_of, unparse, unalloc, call_kw,
                         inline_calls)
 from sa.index import AnalysisError, FuncInfo
@@ -311,7 +311,7 @@ def one_d(ix, R):
         fl = mkflow(ix, site)
         pe = param_env(fl, f, ['P', 'pmin', 'pmax', 'T', 'filt'])
         pe['xg'] = code(fl, 'self.xsecGrid')
-        e = one(fl.of('return'), 'return')
+        e = the_return(fl)
         a = atom_of(fl, e.value)
         why = []
         if a is None or a.head != 'call' or a.extra[0] != 'fn:interp_lin_only':
@@ -334,7 +334,7 @@ def kernel_value(ix, name, relpath=UM, follow_alias=True):
     if not isinstance(tgt, FuncInfo):
         raise AnalysisError('kernel %s does not resolve to a function' % name)
     fl = mkflow(ix, tgt)
-    r = one(fl.of('return'), 'return of %s' % tgt.name)
+    r = the_return(fl, 'return of %s' % tgt.name)
     v = r.value
     at = atom_of(fl, v)
     if at is not None and at.head == 'alloc':
@@ -447,7 +447,7 @@ def run(ix, R):
             s = IOC + '.' + nm
             f = ix.func(s)
             fl = mkflow(ix, s)
-            r = one(fl.of('return'), 'return')
+            r = the_return(fl)
             R.check('2.unit.' + nm, 'UNIT', s, '%s == %s' % (nm, want),
                     fl.tab.equal(r.value, spec(fl, want)), key='returns %s' % fmt(fl, r.value),
                     detail='returns %s' % fmt(fl, r.value), loc=f.loc(r.node))
@@ -455,7 +455,7 @@ def run(ix, R):
         f = ix.func(s)
         fl = mkflow(ix, s)
         pe = param_env(fl, f, ['T', 'P'])
-        r = one(fl.of('return'), 'return')
+        r = the_return(fl)
         want = spec(fl, '(find_closest_pair(self.temperatureGrid, T)[0], '
                         'find_closest_pair(self.temperatureGrid, T)[1], '
                         'find_closest_pair(self.logPressure, P)[0], '
@@ -471,7 +471,7 @@ def run(ix, R):
         f = ix.func(site)
         fl = mkflow(ix, site)
         pe = param_env(fl, f, ['arr', 'value'])
-        r = one(fl.of('return'), 'return')
+        r = the_return(fl)
         s = spec(fl, 'arr.searchsorted(value)', pe)
         alt = spec(fl, 'searchsorted(arr, value)', pe)
         ok = False
@@ -502,7 +502,7 @@ def run(ix, R):
         f = ix.func(site)
         fl = mkflow(ix, site)
         pe = param_env(fl, f, ['T', 'p', 'w'])
-        r = one(fl.of('return'), 'return')
+        r = the_return(fl)
         want = spec(fl, 'self.interp_bilinear_grid(T, log10(p), *self.find_closest_index(T, log10(p)), w)/10000', pe)
         R.check('5.compute', 'ALG', site, stmt, fl.tab.equal(r.value, want),
                 key='returns %s' % fmt(fl, r.value), detail='returns %s\n    expected %s' % (
